@@ -125,3 +125,44 @@ theorem foldl_accum_exp_ge (xs : List Amount) (z : Amount) : z.exp ≤ (xs.foldl
 
 end Calc
 end GoblVerif
+
+namespace GoblVerif
+open GoblVerif.Spec
+
+/-- rounding an integer-valued rational gives that integer -/
+theorem roundHalfAway_int (z : ℤ) : roundHalfAway (z : ℚ) = z := by
+  unfold roundHalfAway
+  by_cases h : (0 : ℚ) ≤ (z : ℚ)
+  · rw [if_pos h, ratfloor_eq]
+    have : ((z : ℚ) + 1 / 2) = ((z : ℤ) : ℚ) + 1 / 2 := rfl
+    rw [Int.floor_intCast_add]
+    have : ⌊(1 / 2 : ℚ)⌋ = 0 := by norm_num
+    rw [this]; simp
+  · rw [if_neg h, ratfloor_eq]
+    have hneg : (-(z : ℚ) + 1 / 2) = (((-z : ℤ)) : ℚ) + 1 / 2 := by push_cast; ring
+    rw [hneg, Int.floor_intCast_add]
+    have : ⌊(1 / 2 : ℚ)⌋ = 0 := by norm_num
+    rw [this]; simp
+
+/-- in every case the value of a rescaled amount is the amount's rational value
+    rounded half away from zero at the target precision (exact when raising) -/
+theorem rescaleX_value (a : Amount) (e : ℕ) : (a.rescaleX e).value = roundTo e a.toRat := by
+  by_cases h : e < a.exp
+  · exact rescaleX_down_spec a e h
+  · have hle : a.exp ≤ e := by omega
+    have hr := rescaleX_up_toRat a e hle
+    unfold roundTo
+    have hp := p10q_ne e
+    have : a.toRat * ((pow10 e : ℤ) : ℚ) = (((a.rescaleX e).value : ℤ) : ℚ) := by
+      rw [← hr]
+      unfold Amount.toRat
+      rw [Calc.rescaleX_exp]
+      field_simp
+    rw [this, roundHalfAway_int]
+
+/-- so amounts with the same rational value rescale to the same value -/
+theorem rescaleX_value_congr (a b : Amount) (e : ℕ) (h : a.toRat = b.toRat) :
+    (a.rescaleX e).value = (b.rescaleX e).value := by
+  rw [rescaleX_value, rescaleX_value, h]
+
+end GoblVerif
